@@ -11,6 +11,7 @@ import SnesVerif.Rom.Header
 import SnesVerif.Asm.Model
 import SnesVerif.Cpu.Impl
 import SnesVerif.System.RunUntil
+import SnesVerif.Cpu.Abs
 
 def hexNat? (s : String) : Option Nat :=
   if s.isEmpty then none else
@@ -399,6 +400,31 @@ def run (ws : List String) : String :=
     | _, _, _ => "bad-op"
   | _ => "bad-op"
 
+def archCanon (a : WDC.Arch) : String :=
+  s!"{toHex a.PC.toNat} {toHex a.S.toNat} {toHex a.A.toNat} {toHex a.X.toNat} {toHex a.Y.toNat} {toHex a.D.toNat} " ++
+  s!"{toHex a.DBR.toNat} {toHex a.PBR.toNat} " ++
+  String.join ([a.fN, a.fV, a.fM, a.fX, a.fD, a.fI, a.fZ, a.fC].map b01) ++ s!" {b01 a.E} {b01 a.stopped}|" ++
+  ",".intercalate ((sortNats a.wlog.eraseDups).map (fun x => s!"{toHex x}={toHex (a.mem x).toNat}"))
+
+/-- `spec <steps> <19 register fields> <seed> <ovl>`: the WDC model on the abstraction of the given state -/
+def spec (ws : List String) : String :=
+  match ws with
+  | n :: rest =>
+    if rest.length != 21 then "bad-op" else
+    match parseRegs (rest.take 19), hexNat? (rest.getD 19 ""), hexNat? n with
+    | some r, some seed, some n =>
+      let ovl := parseOvl (rest.getD 20 "-")
+      let base : Nat → U8 := fun a => match ovl.find? (·.1 == a) with
+        | some (_, x) => BitVec.ofNat 8 x
+        | none => BitVec.ofNat 8 (hash8 seed.toUInt64 a.toUInt32).toNat
+      let rec go (k : Nat) (a : WDC.Arch) (acc : List String) : List String :=
+        match k with
+        | 0 => acc.reverse
+        | k + 1 => let a' := WDC.step a; go k a' (archCanon a' :: acc)
+      ";".intercalate (go n (absR r base []) [])
+    | _, _, _ => "bad-op"
+  | _ => "bad-op"
+
 /-- `runu <p|a> <logger 0|1> <target> <maxCycles> <cbs a,b,..|-> <19 register fields> <seed> <ovl>`:
 outcome of `System.RunUntil` with the observer logs -/
 def runUntil (ws : List String) : String :=
@@ -429,6 +455,7 @@ def handle (line : String) : String :=
   let line := line.trimAscii.toString
   if line.startsWith "bus " then BusDrv.run ((line.drop 4).toString.splitOn ";") else
   if line.startsWith "runu " then CpuDrv.runUntil (((line.drop 5).toString.splitOn " ").filter (· ≠ "")) else
+  if line.startsWith "spec " then CpuDrv.spec (((line.drop 5).toString.splitOn " ").filter (· ≠ "")) else
   if line.startsWith "cpu " then CpuDrv.run (((line.drop 4).toString.splitOn " ").filter (· ≠ "")) else
   if line.startsWith "enc " then AsmDrv.enc (((line.drop 4).toString.splitOn " ").filter (· ≠ "")) else
   if line.startsWith "asm " then
